@@ -454,9 +454,9 @@ func evalC15Objects(v *engine.Verdict, x *C15Case) {
 		}
 		return true
 	}
-	if !verify(-1, ObjOp{}) {
-		return
-	}
+	// (no verification before the first step: state left behind by EARLIER
+	// cases of the same process would make the shrunk case irreproducible when
+	// replayed alone; after the first step the same leak shows within the case)
 	crossLoads := 0
 	lastLoaded := -1
 	for step, op := range x.Ops {
